@@ -43,9 +43,9 @@ func init() {
 		Families: func(c *mon.Config) []mon.Family {
 			return []mon.Family{
 				{Name: "fd-small-universe", N: 40, Run: c16Small},
-				{Name: "fd-chunk-boundaries", N: 9 * c.Pick(40, 2000), Run: c16Chunks},
-				{Name: "fd-keyzoo", N: c.Pick(4000, 150000), Run: c16Zoo},
-				{Name: "countprefixes", N: c.Pick(3000, 100000), Run: c16Count},
+				{Name: "fd-chunk-boundaries", N: 9 * c.Pick(200, 20000), Run: c16Chunks},
+				{Name: "fd-keyzoo", N: c.Pick(10000, 1500000), Run: c16Zoo},
+				{Name: "countprefixes", N: c.Pick(6000, 800000), Run: c16Count},
 			}
 		},
 	})
